@@ -37,9 +37,9 @@ def _eval_const_expr(s):
 def translate():
     an = open(os.path.join(REPO, "src/analysis.rs")).read()
     out = {}
-    out["overhead"] = _num(_find(r"const OVERHEAD: Self = Cost\(([0-9_]+)\);", an, "OVERHEAD").group(1))
-    out["never_executed"] = _num(_find(r"const NEVER_EXECUTED: Self = Cost\(([0-9_]+)\);", an, "NEVER_EXECUTED").group(1))
-    out["consensus_max"] = _num(_find(r"pub const CONSENSUS_MAX: Self = Cost\(([0-9_]+)\);", an, "CONSENSUS_MAX").group(1))
+    out["overhead"] = _eval_const_expr(_find(r"const OVERHEAD: Self = Cost\(([^;]+)\);", an, "OVERHEAD").group(1))
+    out["never_executed"] = _eval_const_expr(_find(r"const NEVER_EXECUTED: Self = Cost\(([^;]+)\);", an, "NEVER_EXECUTED").group(1))
+    out["consensus_max"] = _eval_const_expr(_find(r"pub const CONSENSUS_MAX: Self = Cost\(([^;]+)\);", an, "CONSENSUS_MAX").group(1))
     gb = _find(r"fn get_budget\(.*?\n    \}\n", an, "get_budget").group(0)
     out["free_budget"] = _num(_find(r"\.saturating_add\(([0-9_]+)\);", gb, "get_budget free allowance").group(1))
     if "u32::try_from(witness_stack_serialized_len)" not in gb or "consensus_encode" not in gb:
